@@ -28,7 +28,7 @@ ASSUMPTIONS = ["fewer than 2^15 messages are submitted per direction (exactly-on
 
 
 def route(case):
-    return "disp" if case.startswith(("disp", "sccrq", "full", "rws")) else "chan"
+    return "disp" if case.startswith(("disp", "sccrq", "full", "rws", "overlap")) else "chan"
 
 
 ORIGINS = [0, 0, 1, 0x7ffd, 0x7ffe, 0x7fff, 0x8000, 0x8001, 0xfffc, 0xfffd, 0xfffe, 0xffff]
@@ -210,6 +210,7 @@ def gen_cases(rng, tier, budget):
         cases.append("seqless %d %d" % (rng.randrange(65536), rng.randrange(65536)))
     cases += gen_disp(rng, 150 if quick else 2000)
     cases += gen_full(rng, 150 if quick else 2000)
+    cases.append("overlap")
     # advertised Receive Window Size through the real establishment path; exhaustive over the small grid
     for w in ["-", "0", "1", "2", "3", "4", "8", "16", "32"]:
         cases.append("rws lac %s 0 0" % w)
@@ -260,6 +261,11 @@ def monitor(case, line):
         return monitor_disp(case, line)
     if case.startswith("full"):
         return monitor_full(case, line)
+    if case.startswith("overlap"):
+        if line.endswith("recv=returned"):
+            return ("the tunnel runner's Tick and the punt consumer's Recv were inside the same ControlChannel at the "
+                    "same time (Dispatch returned while Tick was held in its send callback): channel steps are not atomic")
+        return None
     if case.startswith("rws"):
         t = case.split()
         adv = 4 if t[2] == "-" else max(1, int(t[2]))
@@ -406,6 +412,8 @@ def classify(case, impl, model):
 
 
 def signature(case, impl, models):
+    if case.startswith("overlap"):
+        return "race-channel-goroutines" if impl == models.get("defective") else "other:overlap"
     if case.startswith(("rws", "sccrq")):
         # establishment path: the channel keeps the hard-coded window of runner.go instead of the advertised one
         return "peer-rws-ignored" if impl == models.get("defective") else "other:rws"
